@@ -483,7 +483,75 @@ def _out_reg_var(fn, out_name):
     raise A.AnchorLost("`let r_x = self.get_out_reg(%s)` in %s" % (out_name, fn["name"]))
 
 
+def _single_variant_arms(fn, operand):
+    """a function that takes the allocation of one operand apart without a `match` over it - `let a =
+    self.get_allocation(x); if let Allocation::Register(r) = a { ..; return; } .. if let Allocation::Memory(m)
+    = a { .. } ..` - read as one straight-line arm per variant: the statements executed when the allocation
+    is that variant"""
+    avar = None
+    for l in A.find(fn["body"], "Let"):
+        if l.get("init") is not None and _self_call(l["init"], "get_allocation") and [A.ident(A.strip(a)) for a in A.strip(l["init"])["args"]] == [operand]:
+            avar = A.binding_name(l["pat"])
+    if avar is None:
+        return None
+
+    def test(cond):
+        c = A.strip(cond)
+        if c.get("k") == "LetCond" and A.ident(A.strip(c["e"])) == avar:
+            segs, subs = A.pat_variant(c["pat"])
+            if segs and segs[0] == "Allocation":
+                return segs[-1], (subs or [None])[0]
+        return None
+
+    arms = []
+    for variant in ("Register", "Memory", "Unassigned"):
+        out = []
+        bound = [None]
+        done = [False]
+
+        def walk(stmts):
+            for s_ in stmts:
+                if done[0]:
+                    return
+                if s_.get("k") == "Let" and A.binding_name(s_["pat"]) == avar:
+                    continue
+                e = A.strip(A.stmt_expr(s_) or {})
+                if e.get("k") == "If":
+                    tst = test(e["cond"])
+                    if tst is not None:
+                        if tst[0] == variant:
+                            if tst[1] is not None:
+                                bound[0] = tst[1]
+                            walk(A.stmts_of(e["then"]))
+                        elif e.get("else") is not None:
+                            walk(A.stmts_of(e["else"]))
+                        continue
+                if e.get("k") == "Match" and A.ident(A.strip(e["e"])) == avar:
+                    for arm in e["arms"]:
+                        segs, subs = A.pat_variant(arm["pat"])
+                        if segs and segs[-1] == variant:
+                            if subs:
+                                bound[0] = subs[0]
+                            walk(A.stmts_of(arm["body"]))
+                    continue
+                if e.get("k") == "Return":
+                    done[0] = True
+                    return
+                out.append(s_)
+
+        walk(fn["body"]["stmts"])
+        pat = {"k": "PTupleStruct", "path": {"k": "Path", "segs": ["Allocation", variant]}, "elems": [bound[0]] if bound[0] is not None else []}
+        if variant == "Unassigned":
+            pat = {"k": "PPath", "path": {"k": "Path", "segs": ["Allocation", variant]}}
+        arms.append({"pat": pat, "body": {"k": "Block", "stmts": out, "ln": fn["ln"]}, "ln": fn["ln"]})
+    return {"k": "Match", "arms": arms, "ln": fn["ln"], "_synthetic": True}
+
+
 def _alloc_match(fn, operands):
+    if len(operands) == 1:
+        syn = _single_variant_arms(fn, operands[0])
+        if syn is not None and not any(_self_call(A.strip(m["e"]), "get_allocation") for m in A.find(fn["body"], "Match")):
+            return syn
     for m in A.find(fn["body"], "Match"):
         e = A.strip(m["e"])
         els = e["elems"] if e.get("k") == "Tuple" else [e]
@@ -688,6 +756,8 @@ def r5_helpers(rule, root=None):
             and "Allocation::Unassigned" in A.unparse(a1["body"])
             and "Allocation::Memory" in A.unparse(a2["body"])
         )
+    if not ok:
+        ok = _allocation_cases(fn)
     if ok:
         rule.ok("get_allocation: i < N => Register (poked); UNASSIGNED => Unassigned; else Memory")
     else:
@@ -708,6 +778,37 @@ def r5_helpers(rule, root=None):
         rule.ok("get_spare_register: slot_count = max(slot_count, r + 1)")
     else:
         rule.bad("get_spare_register", "get_spare_register must pop a spare and raise slot_count to at least r + 1; found `%s`" % txt[:120], A.where(fn))
+
+
+def _allocation_cases(fn):
+    """get_allocation as an ordered decision list, whatever the spelling (match with guards or an if-chain):
+    slot < N -> Register(slot) after poking the LRU; slot == UNASSIGNED -> Unassigned; else Memory(slot)"""
+    import re as _re
+
+    view = A.value_view(fn["body"])
+    tail = A.unblock(view)
+    if tail.get("k") == "Block":
+        st = tail.get("stmts", [])
+        tail = A.strip(A.stmt_expr(st[-1]) or {}) if st else {}
+    cases = []
+    e = tail
+    while e.get("k") == "If" and e.get("else") is not None:
+        cases.append((A.norm_cond(str(A.ftxt(A.strip(e["cond"])))), e["then"]))
+        e = A.unblock(e["else"]) if A.unblock(e["else"]).get("k") == "If" else e["else"]
+        if e.get("k") != "If":
+            cases.append(("else", e))
+            break
+    if len(cases) != 3:
+        return False
+    slot = r"self\.allocations\[\(?\w+asusize\)?\]"
+    c0, c1, c2 = cases
+    t0, t1, t2 = (str(A.ftxt(x[1])) for x in cases)
+    return bool(
+        _re.fullmatch(r"%s<\(?Nasu32\)?" % slot, c0[0])
+        and "self.register_lru.poke(" in t0 and _re.search(r"Allocation::Register\(\(?%sasu8\)?\)" % slot, t0)
+        and _re.fullmatch(r"(%s==UNASSIGNED|UNASSIGNED==%s)" % (slot, slot), c1[0]) and "Allocation::Unassigned" in t1
+        and c2[0] == "else" and _re.search(r"Allocation::Memory\(%s\)" % slot, t2)
+    )
 
 
 def _subst(t):
